@@ -6,14 +6,19 @@ program, as functions from a plan typed by `Prog.infer` and candidate values:
 `routeU` (`ConstructNode::finalize_unpruned`), `forestRoute` (`Forest::to_witness_node` + the same),
 `decodeRoute` (`RedeemNode::decode`'s witness stream), `routeP` (`finalize_pruned`: `routeU`, then
 re-inference of the pruned program and `Value::prune` of the remaining values, for an arbitrary set
-`Cut` of removed branches).  `r : Witnesses` is what the resulting redemption program carries
+`Cut` of removed branches), `finalizePruned` (`RoutesExec.lean`: `routeP` for the cut the model's own
+run of the unpruned program determines).  `r : Witnesses` is what the resulting redemption program carries
 (node index, value); the invariant is `WitnessTyped ar r`: every value `HasTy` the inferred target
 type of its node.  `Covers idx r`: exactly one value per witness node.
 -/
 import SimplicityModel.RoutesProps
+import SimplicityModel.RoutesExecProps
+import SimplicityModel.RoutesSerial
+import SimplicityModel.Prog.JetsElements
+import SimplicityModel.Prog.JetsElementsProps
 
 namespace Props.C12
-open Routes Prog BM4
+open Routes Prog BM4 Wire
 
 /-! ### route 1: construction-time witnesses + `finalize_unpruned` -/
 
@@ -53,7 +58,7 @@ theorem finalize_unpruned_values (jt : JetTypes) (p : Plan) (program : Bool) (ca
 target type in the prune order (in particular: of exactly the target type), the route succeeds. -/
 theorem finalize_unpruned_accepts (jt : JetTypes) (p : Plan) (program : Bool) (cand : Nat → Option Val)
     (ar : Arrows) (hi : infer jt p program = .ok ar)
-    (hc : ∀ i v, cand i = some v → ∃ t, HasTy v t ∧ Le (tgtOf ar i) t) :
+    (hc : ∀ i v, cand i = some v → ∃ t, HasTy v t ∧ Routes.Le (tgtOf ar i) t) :
     ∃ r, routeU jt p program cand = .ok ar r := by
   have key : ∀ idx : List Nat, ∃ r, convertAll ar cand idx = some r := by
     intro idx
@@ -140,16 +145,17 @@ Full statement: *`finalize_pruned(env)` = `finalize_unpruned`, execution on the 
 tracker, removal of the case branches the tracker did not see, re-inference, `Value::prune` of the
 witness values — returns a program satisfying the invariant or an error, and never panics.*
 Proved below for **every** set of removed branches and nodes (`Cut`), hence for the one an execution
-determines, and for both inference passes of `prune_with_tracker` (`leak`, see `Routes.lean`).  Not modelled (so `_partial`): the execution itself — that the Bit Machine does not
-panic on the unpruned program is C05's theorem under the hypothesis `WT`, which is exactly the
-invariant `finalize_unpruned_ok_or_error` establishes, but the link plan → `BM4.Term` (`elabNode`)
-is driver glue, not a theorem; which branches are removed is taken from the real run. -/
+determines, and for both inference passes of `prune_with_tracker` (`leak`, see `Routes.lean`).  These
+parametric theorems stay `_partial` (the cut is a parameter); the section "route 2 with the run
+modelled" below instantiates the cut with the model's own run (`Routes.finalizePruned`) and covers
+the Bit Machine run: `finalize_pruned_ok_or_error`, `finalize_pruned_never_panics`,
+`finalize_pruned_values`. -/
 
 /-- pruned types are below the original ones (fewer constraints ⇒ smaller least solution) -/
 theorem pruned_types_smaller (jt : JetTypes) (leak : Bool) (p : Plan) (program : Bool) (c : Cut)
     (ar ar' : Arrows)
     (h : infer jt p program = .ok ar) (h' : inferCut jt leak p program c = .ok ar') :
-    ∀ i, Le (tgtOf ar' i) (tgtOf ar i) :=
+    ∀ i, Routes.Le (tgtOf ar' i) (tgtOf ar i) :=
   inferCut_le h h'
 
 /-- **Ok or error, after pruning**: the pruned program carries one value per remaining witness
@@ -250,6 +256,130 @@ theorem finalize_pruned_values_partial (jt : JetTypes) (leak : Bool) (p : Plan) 
   | fuel => rw [hu] at h; cases h
   | panic => rw [hu] at h; cases h
 
+/-! ### route 2 with the run modelled: `finalize_pruned` as one function
+
+`Routes.finalizePruned` (`RoutesExec.lean`) is `finalize_pruned(env)` with nothing supplied from
+outside but the environment: `finalize_unpruned`; the unpruned program elaborated to the Bit
+Machine model's term and run on the unit input with the tracker (`trackedRun`: `Prog.elabNode`,
+`Prog.evalT`); run failed ⇒ error; run succeeded ⇒ the `prune_case` table on the tracker's record
+(`sidesOf`), reachability (`cutOf`), re-inference, `Value::prune` of the remaining values (`routeP`).
+`RunEnv` = what the run depends on besides the program: node identities (IHR, abstract), commitment
+roots for `disconnect`, the jets of the environment.  Hypothesis `planOK p`: children precede
+parents, no wire-only node, words have `2^n` bits — what the plan parser guarantees. -/
+
+/-- **Ok or error, `finalize_pruned` as a whole.**  The outcome is never `panic`.  A returned
+program is the one pruning by the record `tr` of the model's own successful run gives: its types
+are the re-inferred ones, it carries exactly one value per remaining witness node, each of the
+node's re-inferred target type.  An error is returned exactly when `finalize_unpruned` reports one
+or the run fails; the program always has a term (`illTyped` only when the plan has no typing). -/
+theorem finalize_pruned_ok_or_error (jt : JetTypes) (leak : Bool) (p : Plan) (cand : Nat → Option Val)
+    (re : RunEnv) (hok : planOK p = true) :
+    finalizePruned jt leak p true cand re ≠ .panic ∧
+    (∀ ar' r', finalizePruned jt leak p true cand re = .ok ar' r' →
+      ∃ ar r tr, routeU jt p true cand = .ok ar r ∧ trackedRun p ar r re = .ok tr ∧
+        inferCut jt leak p true (cutOf p (sidesOf re.ids tr.sides)) = .ok ar' ∧
+        Covers ((witnessIdx p).filter (cutOf p (sidesOf re.ids tr.sides)).keep) r' ∧
+        WitnessTyped ar' r') ∧
+    (finalizePruned jt leak p true cand re = .err ↔
+      routeU jt p true cand = .err ∨
+      ∃ ar r k, routeU jt p true cand = .ok ar r ∧ trackedRun p ar r re = .failed k) ∧
+    (finalizePruned jt leak p true cand re = .illTyped ↔ routeU jt p true cand = .illTyped) := by
+  cases hu : routeU jt p true cand with
+  | ok ar r =>
+    obtain ⟨t, _, _, hm⟩ := trackedRun_machine re hok hu
+    cases hr : trackedRun p ar r re with
+    | ok tr =>
+      rw [finalizePruned_of_ok hu hr]
+      obtain ⟨hP1, hP2⟩ := routeP_of_ok (leak := leak) (cutOf p (sidesOf re.ids tr.sides)) hu
+      refine ⟨finalize_pruned_never_panics_partial jt leak p true cand _, ?_, ?_, ?_⟩
+      · intro ar' r' h
+        exact ⟨ar, r, tr, rfl, hr, finalize_pruned_ok_or_error_partial jt leak p true cand _ ar' r' h⟩
+      · constructor
+        · intro h; exact absurd h hP1
+        · rintro (h | ⟨ar1, r1, k, h1, h2⟩)
+          · cases h
+          · simp only [Outcome.ok.injEq] at h1
+            obtain ⟨rfl, rfl⟩ := h1
+            rw [hr] at h2; cases h2
+      · constructor
+        · intro h; exact absurd h hP2
+        · intro h; cases h
+    | failed k =>
+      rw [finalizePruned_of_failed hu hr]
+      refine ⟨by simp, (fun _ _ h => by cases h), ?_, ?_⟩
+      · exact ⟨fun _ => .inr ⟨ar, r, k, rfl, hr⟩, fun _ => rfl⟩
+      · constructor <;> intro h <;> cases h
+    | noTerm => rw [hr] at hm; exact hm.elim
+  | err =>
+    rw [finalizePruned_of_not_ok (by intro ar r h; rw [hu] at h; cases h), hu]
+    refine ⟨by simp, (fun _ _ h => by cases h), ⟨fun _ => .inl rfl, fun _ => rfl⟩, ?_⟩
+    constructor <;> intro h <;> cases h
+  | illTyped =>
+    rw [finalizePruned_of_not_ok (by intro ar r h; rw [hu] at h; cases h), hu]
+    refine ⟨by simp, (fun _ _ h => by cases h), ⟨(fun h => by cases h), ?_⟩, by simp⟩
+    rintro (h | ⟨_, _, _, h, _⟩) <;> cases h
+  | fuel =>
+    rw [finalizePruned_of_not_ok (by intro ar r h; rw [hu] at h; cases h), hu]
+    refine ⟨by simp, (fun _ _ h => by cases h), ⟨(fun h => by cases h), ?_⟩, ?_⟩
+    · rintro (h | ⟨_, _, _, h, _⟩) <;> cases h
+    · constructor <;> intro h <;> cases h
+  | panic => exact absurd hu (routeU_ne_panic _ _ _ _)
+
+/-- **Never a panic, the Bit Machine run included.**  Besides the `.expect(..)`s of pruning
+(`finalize_pruned_never_panics_partial`): the program `finalize_unpruned` hands to the Bit Machine
+has a term `t : 1 ⊢ 1` that is well typed (`WT`), so the machine `for_program` sizes and `exec` runs
+(`BM4.execProgram`, C05's model, in which every out-of-bounds access, missing frame and width
+mismatch is the outcome `crash`) does not crash; it returns an output exactly when the evaluator
+with the tracker — the run `finalizePruned` prunes by — succeeds, and fails exactly when that fails. -/
+theorem finalize_pruned_never_panics (jt : JetTypes) (leak : Bool) (p : Plan) (cand : Nat → Option Val)
+    (re : RunEnv) (hok : planOK p = true) :
+    finalizePruned jt leak p true cand re ≠ .panic ∧
+    ∀ ar r, routeU jt p true cand = .ok ar r →
+      ∃ t : Term .one .one,
+        Prog.elabNode (envOf p ar r re) (p.size + 1) (p.size - 1) = some ⟨.one, .one, t⟩ ∧ WT t ∧
+        execProgram t .unit ≠ .error .crash ∧
+        ((∃ bits, execProgram t .unit = .ok bits) ↔ ∃ tr, trackedRun p ar r re = .ok tr) ∧
+        (execProgram t .unit = .error .fail ↔ ∃ k, trackedRun p ar r re = .failed k) := by
+  refine ⟨(finalize_pruned_ok_or_error jt leak p cand re hok).1, fun ar r hu => ?_⟩
+  obtain ⟨t, helab, hwt, hm⟩ := trackedRun_machine re hok hu
+  refine ⟨t, helab, hwt, ?_⟩
+  cases hr : trackedRun p ar r re with
+  | ok tr =>
+    rw [hr] at hm
+    obtain ⟨bits, hb⟩ := hm
+    rw [hb]
+    exact ⟨by simp, ⟨fun _ => ⟨tr, rfl⟩, fun _ => ⟨bits, rfl⟩⟩, by simp⟩
+  | failed k =>
+    rw [hr] at hm
+    simp only at hm
+    rw [hm]
+    exact ⟨by simp, by simp, ⟨fun _ => ⟨k, rfl⟩, fun _ => rfl⟩⟩
+  | noTerm => rw [hr] at hm; exact hm.elim
+
+/-- **Which value, `finalize_pruned` as a whole**: the candidate pruned directly to the type the
+pruned program gives the node, or the zero value of that type. -/
+theorem finalize_pruned_values (jt : JetTypes) (leak : Bool) (p : Plan) (cand : Nat → Option Val)
+    (re : RunEnv) (ar' : Arrows) (r' : Witnesses)
+    (h : finalizePruned jt leak p true cand re = .ok ar' r') :
+    ∀ x ∈ r', match cand x.1 with
+      | some v => prune v (tgtOf ar' x.1) = some x.2
+      | none => x.2 = zero (tgtOf ar' x.1) := by
+  unfold finalizePruned at h
+  cases hu : routeU jt p true cand with
+  | ok ar r =>
+    rw [hu] at h
+    simp only at h
+    cases hr : trackedRun p ar r re with
+    | ok tr =>
+      rw [hr] at h
+      exact finalize_pruned_values_partial jt leak p true cand _ ar' r' h
+    | failed k => rw [hr] at h; cases h
+    | noTerm => rw [hr] at h; cases h
+  | err => rw [hu] at h; cases h
+  | illTyped => rw [hu] at h; cases h
+  | fuel => rw [hu] at h; cases h
+  | panic => rw [hu] at h; cases h
+
 /-! ### the pruned program's own serialisation
 
 Full statement: *the serialisation of the program `finalize_pruned` returns decodes, to the same
@@ -287,6 +417,79 @@ theorem finalize_pruned_serialisation_decodes_partial (jt : JetTypes) (p : Plan)
   | fuel => rfl
   | panic => rfl
 
+/-- the same statement for `finalize_pruned` as a whole (the cut is the one of the model's run) -/
+theorem finalize_pruned_own_stream_decodes_partial (jt : JetTypes) (p : Plan) (cand : Nat → Option Val)
+    (re : RunEnv) (ar : Arrows) (r : Witnesses) (tr : Prog.Trace)
+    (hu : routeU jt p true cand = .ok ar r) (hr : trackedRun p ar r re = .ok tr) :
+    ownSerialisationDecodes jt p true (cutOf p (sidesOf re.ids tr.sides))
+      (finalizePruned jt false p true cand re) = true := by
+  rw [finalizePruned_of_ok hu hr]
+  exact finalize_pruned_serialisation_decodes_partial jt p true cand _
+
+/-- **Own serialisation decodes — against the decoder itself** (`Prog.decodeRedeem`, the model of
+`RedeemNode::decode` of C01/C02, and `Prog.encode`, the model of `to_vec_with_witness`).
+
+Setting: `finalize_unpruned` returned a program (`hu`), the model's run of it succeeded with record
+`tr` (`hr`), and `finalizePruned` returned arrows `ar'` and values `r'` on the indices of the unpruned
+plan (`h`; types from the second inference pass, `leak = false`: the code as it is).  The serialised
+program is given in the decoder's form: a non-empty list `N` of fewer than 2^32 well-formed wire nodes
+in canonical order that converts to a plan `q` without open `disconnect`, and `q` is the pruned
+program renumbered (`Routes.Renumbers`): its visible nodes are exactly the remaining nodes
+(`cutOf … keep`) of the pruned plan (`Prog.prunePlan` by the run's record), with the children renamed
+by `σ`; the other entries of `q` are hidden nodes.  The remaining hypotheses concern `q` alone: the
+driver's unification fuel suffices for it, its annotations exist (jets have roots and costs), and
+**its identity roots are pairwise different** — the decoder's sharing rule, the hypothesis that
+cannot be dropped: a program with two nodes of one identity root is rejected by `RedeemNode::decode`
+(the encoder would have written one node; then `q` is a quotient, not a renumbering).
+
+Then (1) type inference on `q` — what the decoder does — gives every visible node exactly the arrow
+the pruned program has at the corresponding node: *the decoder's types are the pruned program's
+types*; (2) `encode` writes `N` and the compact encodings of the values `r'` in `q`'s node order;
+(3) `decodeRedeem` accepts these two byte strings and returns `q`, those arrows, those annotations
+and, as witness values, exactly the values `r'`.
+
+Proof: `Routes.infer_renumbered` (both typings are *least typings*, a notion free of variable
+numbering: `inferM_typing`, `inferM_least`, `sol_of_typing`) + C01's `Prog.roundtrip_canonical`.
+What is *not* proved is that the encoder's node list for the pruned program is such an `N` for every
+program (C01's open part for programs that are not yet in canonical order); the harness sends every
+pruned program's own bytes through `RedeemNode::decode` and the model's decoder. -/
+theorem finalize_pruned_serialisation_decodes (tb : Tables) (hof : ∀ j, tb.ofName (tb.nameOf j) = some j)
+    (p : Plan) (cand : Nat → Option Val) (re : RunEnv) (hok : planOK p = true)
+    (ar : Arrows) (r : Witnesses) (tr : Prog.Trace) (ar' : Arrows) (r' : Witnesses)
+    (hu : routeU tb.jetTy p true cand = .ok ar r) (hr : trackedRun p ar r re = .ok tr)
+    (h : finalizePruned tb.jetTy false p true cand re = .ok ar' r')
+    (N : List (WNode tb.J)) (q : Plan) (σ σ' : Nat → Nat) (cm : Nat → Nat)
+    (hN0 : N ≠ []) (hNlt : N.length < 2 ^ 32) (hNok : NodesOk 0 N)
+    (hcan : canonicalOk N.toArray = true) (hconv : convert tb.nameOf N.toArray = .ok q)
+    (hdisc : ∀ nd ∈ q.toList, ∀ a, nd ≠ .disconnect a none)
+    (hR : Renumbers σ σ' q (Prog.prunePlan tr.sides re.ids cm p) (cutOf p (sidesOf re.ids tr.sides)).keep)
+    (hfuel : infer tb.jetTy q true ≠ .fuel)
+    (han : ∀ arQ, infer tb.jetTy q true = .ok arQ →
+      ∃ an, annots tb.jetCmr tb.jetCost q arQ (fun j => witBits r' (σ j)) = some an ∧
+        (ihrList q an).eraseDups.length = (ihrList q an).length) :
+    ∃ arQ an,
+      infer tb.jetTy q true = .ok arQ ∧
+      (∀ j nd, q[j]? = some nd → isHidden nd = false →
+        srcOf arQ j = srcOf ar' (σ j) ∧ tgtOf arQ j = tgtOf ar' (σ j)) ∧
+      encode tb.jc tb.ofName q an true (fun j => witBits r' (σ j)) =
+        some (padToByte (encProgram tb.jc N),
+          padToByte ((wIdx q.toList 0).filterMap fun j => witBits r' (σ j)).flatten) ∧
+      decodeRedeem tb (padToByte (encProgram tb.jc N))
+          (padToByte ((wIdx q.toList 0).filterMap fun j => witBits r' (σ j)).flatten) =
+        .ok ⟨q, arQ, (wIdx q.toList 0).filterMap (fun j => (witBits r' (σ j)).map fun b => (j, b)), an⟩ :=
+  finalizePruned_decodes tb hof p cand re hok ar r tr ar' r' hu hr h N q σ σ' cm hN0 hNlt hNok hcan hconv
+    hdisc hR hfuel han
+
+/-- the ingredient that closes "the decoder's types are the pruned program's types": the types of a
+program do not depend on the numbering of its nodes -/
+theorem types_independent_of_numbering (jt : JetTypes) (σ σ' : Nat → Nat) (q P : Plan) (mask : Nat → Bool)
+    (hR : Renumbers σ σ' q P mask)
+    (hshape : ∀ i nd, P[i]? = some nd → mask i = true → shapeOK nd = true ∧ ∀ c ∈ nd.children, c < P.size)
+    (arP arQ : Arrows) (hP : Prog.inferM jt P mask true = .ok arP) (hQ : infer jt q true = .ok arQ) :
+    ∀ j nd, q[j]? = some nd → isHidden nd = false →
+      srcOf arQ j = srcOf arP (σ j) ∧ tgtOf arQ j = tgtOf arP (σ j) :=
+  infer_renumbered hR hshape hP hQ
+
 /-- `comp (pair L(ε) unit) (case (take (comp w unit)) (drop (comp (comp w pin₂) unit)))`: the witness
 node `w` (index 0) is used in the executed left branch, where nothing constrains its type, and in
 the right branch, which pins it to `2`. -/
@@ -322,15 +525,99 @@ theorem finalize_pruned_serialisation_counterexample :
 
 Full statement: *executing a redemption program obtained by any route writes, at every witness
 node, exactly as many bits as the node's target type is wide (and `BitMachine::exec` computes the
-semantics).*  Proved: the padded encoding of every carried value — what the `witness` instruction
-copies into the write frame — is exactly as long as the bit width of the node's target type.
-Missing for the full statement: the tie between a plan with these values and the intrinsically
-typed term of C05's `exec_equals_semantics` (hypothesis `WT`), which is checked by the
-correspondence of C05 and by this property's harness (`BitMachine::exec` under debug assertions),
-not proved. -/
+semantics).*  `witness_write_width_partial` is the value-level fact (the padded encoding of every
+carried value is exactly as long as the bit width of the node's target type); `witness_write_width`
+is the statement on the Bit Machine model; `finalize_unpruned_executes` is "`exec` computes the
+semantics" for the program `finalize_unpruned` returns (the tie plan + values → typed term,
+`Routes.elab_total`, is a theorem now).  For the *pruned* program, "same behaviour" is C08's subject. -/
 theorem witness_write_width_partial (ar : Arrows) (r : Witnesses) (h : WitnessTyped ar r) :
     ∀ iv ∈ r, (padded (tgtOf ar iv.1) iv.2).length = (tgtOf ar iv.1).bw :=
   fun iv hm => padded_length (h iv hm)
+
+/-- **What a witness node writes** (the full statement, on the Bit Machine model of C05).  Let a
+program — plan `p` with arrows `ar` — carry one value per listed witness node, each of its node's
+target type (the invariant; `idx` = all witness nodes for `finalize_unpruned`/decoding, the
+remaining ones after pruning).  Then every carried `(i, v)`
+
+* elaborates, at node `i`, to the machine's `witness` instruction with exactly the value `v` at
+  exactly the node's arrow, and
+* executed in any machine state that holds the output area of that arrow's target in its write
+  frame (`Pre`, `Cap`: the state every well-typed run reaches the node in, `run_spec`), succeeds,
+  advances the write cursor by exactly `bw(target type)`, writes exactly the padded encoding of
+  `v` — which is `bw(target type)` bits long — and changes no other cell. -/
+theorem witness_write_width (p : Plan) (ar : Arrows) (idx : List Nat) (r : Witnesses) (re : RunEnv)
+    (hsz : ar.size = p.size) (hc : Covers idx r) (hn : idx.Nodup)
+    (hidx : ∀ i ∈ idx, p[i]? = some .witness) (ht : WitnessTyped ar r) :
+    ∀ iv ∈ r, ∀ f : Nat,
+      Prog.elabNode (envOf p ar r re) (f + 1) iv.1 =
+        some ⟨srcOf ar iv.1, tgtOf ar iv.1, Term.witness iv.2⟩ ∧
+      ∀ (m : M) (inp : Val), Pre m (srcOf ar iv.1) (tgtOf ar iv.1) inp →
+        Cap m (Term.witness (a := srcOf ar iv.1) (b := tgtOf ar iv.1) iv.2) →
+        ∃ m', run (Term.witness (a := srcOf ar iv.1) (b := tgtOf ar iv.1) iv.2) m = .ok m' ∧
+          m'.write = advW (tgtOf ar iv.1).bw m.write ∧
+          (padded (tgtOf ar iv.1) iv.2).length = (tgtOf ar iv.1).bw ∧
+          slice m'.cells (wcur m) (tgtOf ar iv.1).bw = padded (tgtOf ar iv.1) iv.2 ∧
+          ∀ i, (i < wcur m ∨ wcur m + (tgtOf ar iv.1).bw ≤ i) → m'.cells i = m.cells i := by
+  intro iv hm f
+  refine ⟨witness_elab re hsz hc hn hidx ht hm f, fun m inp pre hcap => ?_⟩
+  obtain ⟨m', h1, h2, _, _, h5, h6, h7⟩ := witness_step iv.2 (ht iv hm) m inp pre hcap
+  exact ⟨m', h1, h2, h5, h6, h7⟩
+
+/-- … for what `finalize_unpruned` returns … -/
+theorem finalize_unpruned_witness_writes (jt : JetTypes) (p : Plan) (program : Bool)
+    (cand : Nat → Option Val) (re : RunEnv) (ar : Arrows) (r : Witnesses)
+    (h : routeU jt p program cand = .ok ar r) :
+    ∀ iv ∈ r, ∀ f : Nat,
+      Prog.elabNode (envOf p ar r re) (f + 1) iv.1 =
+        some ⟨srcOf ar iv.1, tgtOf ar iv.1, Term.witness iv.2⟩ ∧
+      ∀ (m : M) (inp : Val), Pre m (srcOf ar iv.1) (tgtOf ar iv.1) inp →
+        Cap m (Term.witness (a := srcOf ar iv.1) (b := tgtOf ar iv.1) iv.2) →
+        ∃ m', run (Term.witness (a := srcOf ar iv.1) (b := tgtOf ar iv.1) iv.2) m = .ok m' ∧
+          m'.write = advW (tgtOf ar iv.1).bw m.write ∧
+          (padded (tgtOf ar iv.1) iv.2).length = (tgtOf ar iv.1).bw ∧
+          slice m'.cells (wcur m) (tgtOf ar iv.1).bw = padded (tgtOf ar iv.1) iv.2 ∧
+          ∀ i, (i < wcur m ∨ wcur m + (tgtOf ar iv.1).bw ≤ i) → m'.cells i = m.cells i := by
+  obtain ⟨hi, hc, ht⟩ := (finalize_unpruned_ok_or_error jt p program cand).2 ar r h
+  obtain ⟨_, _, _, _, rfl⟩ := infer_sol hi
+  exact witness_write_width p _ (witnessIdx p) r re (by simp [Prog.arrowsOf]) hc (witnessIdx_nodup p)
+    (fun i hi => mem_witnessIdx.1 hi) ht
+
+/-- … and for the pruned program `finalize_pruned` returns: the plan rewritten by the `prune_case`
+table (`Prog.prunePlan`, for the run's record), the re-inferred arrows, the pruned values. -/
+theorem finalize_pruned_witness_writes (jt : JetTypes) (leak : Bool) (p : Plan) (cand : Nat → Option Val)
+    (re : RunEnv) (ar' : Arrows) (r' : Witnesses)
+    (h : finalizePruned jt leak p true cand re = .ok ar' r') (S : List (Nat × Bool)) (cm : Nat → Nat) :
+    ∀ iv ∈ r', ∀ f : Nat,
+      Prog.elabNode (envOf (Prog.prunePlan S re.ids cm p) ar' r' re) (f + 1) iv.1 =
+        some ⟨srcOf ar' iv.1, tgtOf ar' iv.1, Term.witness iv.2⟩ ∧
+      ∀ (m : M) (inp : Val), Pre m (srcOf ar' iv.1) (tgtOf ar' iv.1) inp →
+        Cap m (Term.witness (a := srcOf ar' iv.1) (b := tgtOf ar' iv.1) iv.2) →
+        ∃ m', run (Term.witness (a := srcOf ar' iv.1) (b := tgtOf ar' iv.1) iv.2) m = .ok m' ∧
+          m'.write = advW (tgtOf ar' iv.1).bw m.write ∧
+          (padded (tgtOf ar' iv.1) iv.2).length = (tgtOf ar' iv.1).bw ∧
+          slice m'.cells (wcur m) (tgtOf ar' iv.1).bw = padded (tgtOf ar' iv.1) iv.2 ∧
+          ∀ i, (i < wcur m ∨ wcur m + (tgtOf ar' iv.1).bw ≤ i) → m'.cells i = m.cells i := by
+  obtain ⟨c, hP⟩ := finalizePruned_ok_routeP h
+  obtain ⟨hi, hc, ht⟩ := finalize_pruned_ok_or_error_partial jt leak p true cand c ar' r' hP
+  refine witness_write_width _ ar' _ r' re ?_ hc
+    (List.Pairwise.filter _ (witnessIdx_nodup p)) ?_ ht
+  · rw [inferCut_size hi]; simp [Prog.prunePlan, Prog.pruneList_length]
+  · intro i hi
+    have := mem_witnessIdx.1 (List.mem_filter.1 hi).1
+    rw [Prog.prunePlan_getElem?, this]; rfl
+
+/-- **Execution of the program `finalize_unpruned` returns** (the Bit Machine model of C05, sized by
+`for_program`, run by `exec`): the program has a term `t : 1 ⊢ 1`, and the machine never crashes, returns
+a padded encoding of exactly `eval t ()` when the semantics succeeds and fails when it fails. -/
+theorem finalize_unpruned_executes (jt : JetTypes) (p : Plan) (cand : Nat → Option Val) (re : RunEnv)
+    (hok : planOK p = true) (ar : Arrows) (r : Witnesses) (h : routeU jt p true cand = .ok ar r) :
+    ∃ t : Term .one .one,
+      Prog.elabNode (envOf p ar r re) (p.size + 1) (p.size - 1) = some ⟨.one, .one, t⟩ ∧ WT t ∧
+      match eval t .unit with
+      | some out => ∃ bits, execProgram t .unit = .ok bits ∧ Enc .one out bits
+      | none => execProgram t .unit = .error .fail := by
+  obtain ⟨t, helab, hwt⟩ := routeU_term re hok h
+  exact ⟨t, helab, hwt, exec_spec t .unit .unit hwt⟩
 
 /-! ### non-vacuity
 
@@ -376,5 +663,94 @@ example : tgtIs (routeP noJets codeLeaks exPlan true (fun _ => some (.inr (.pair
     (.sum .one .one) = true := by decide +kernel
 example : carries (routeP noJets codeLeaks exPlan true (fun _ => some (.inr (.pair (.inr .unit) .unit))) exCut)
     [(0, .inr .unit)] = true := by decide +kernel
+
+-- `finalize_pruned` with its own run (identities = node indices, no jets): the value `R((1, ε))`
+-- takes the right branches of both cases — nothing of the witness type can go; the value `L(0)`
+-- (converted to `L(ε)`) takes the left branch of the outer case, the inner case disappears and the
+-- witness type shrinks to `1 + 1`
+def exRun : RunEnv := { ids := fun i => i, cmr := #[], jets := fun _ _ => none }
+example : planOK exPlan = true := by decide
+example : carries (finalizePruned noJets codeLeaks exPlan true (fun _ => some (.inr (.pair (.inr .unit) .unit))) exRun)
+    [(0, .inr (.pair (.inr .unit) .unit))] = true := by decide +kernel
+example : carries (finalizePruned noJets codeLeaks exPlan true (fun _ => some (.inl (.inl .unit))) exRun)
+    [(0, .inl .unit)] = true := by decide +kernel
+example : tgtIs (finalizePruned noJets codeLeaks exPlan true (fun _ => some (.inl (.inl .unit))) exRun) 0
+    (.sum .one .one) = true := by decide +kernel
+-- a run that fails (`assertl` meets `R(ε)`): an error, not a program; without a candidate the zero
+-- value `L(ε)` passes the assertion
+def exFailPlan : Plan := #[.witness, .unit, .pair 0 1, .take 1, .assertl 3 0, .comp 2 4]
+example : planOK exFailPlan = true := by decide
+example : finalizePruned noJets codeLeaks exFailPlan true (fun _ => some (.inr .unit)) exRun = .err := by
+  decide +kernel
+example : carries (finalizePruned noJets codeLeaks exFailPlan true (fun _ => none) exRun) [(0, .inl .unit)] = true := by
+  decide +kernel
+
+/-! ### non-vacuity of `finalize_pruned_serialisation_decodes`
+
+`exPlan` with the candidate `L(0)`: the run records the left side of the outer case (node 6) only;
+the pruned program is `comp (pair wit unit) (assertl (take unit) #h)` — seven wire nodes, the hidden
+node an entry of its own, plan nodes 6 and 7 renumbered to 5 and 6.  Every hypothesis of the theorem
+is discharged except the existence of the annotations and the pairwise difference of the seven
+identity roots, which are SHA-256 values and are not evaluated in the kernel. -/
+
+def tbE : Tables := ⟨JetsE.J, JetsE.jc, JetsE.nameOf, JetsE.ofName, JetsE.jetTy, JetsE.jetCmr, JetsE.jetCost⟩
+def zeros256 : List Bool := List.replicate 256 false
+def exN : List (WNode JetsE.J) :=
+  [.witness, .unit, .pair 0 1, .take 1, .hidden zeros256, .case 3 4, .comp 2 5]
+def exQ : Plan := #[.witness, .unit, .pair 0 1, .take 1, .hidden 0, .assertl 3 0, .comp 2 5]
+def exσ : Nat → Nat := fun j => if j = 5 then 6 else if j = 6 then 7 else j
+def exσ' : Nat → Nat := fun i => if i = 6 then 5 else if i = 7 then 6 else i
+def exCandL : Nat → Option Val := fun _ => some (.inl (.inl .unit))
+
+theorem bitsNat_zeros : ∀ n acc,
+    (List.replicate n false).foldl (fun acc b => acc * 2 + (if b then 1 else 0)) acc = acc * 2 ^ n := by
+  intro n
+  induction n with
+  | zero => intro acc; simp
+  | succ n ih => intro acc; simp [List.replicate_succ, ih, Nat.pow_succ]; rw [Nat.mul_assoc, Nat.mul_comm 2]
+
+theorem carries_ok {o : Outcome} {ws : Witnesses} (h : carries o ws = true) : ∃ ar, o = .ok ar ws := by
+  cases o with
+  | ok ar r => exact ⟨ar, by simp [carries] at h; rw [h]⟩
+  | _ => simp [carries] at h
+
+theorem finalize_pruned_serialisation_example
+    (han : ∀ arQ, infer tbE.jetTy exQ true = .ok arQ →
+      ∃ an, annots tbE.jetCmr tbE.jetCost exQ arQ (fun j => witBits [(0, .inl .unit)] (exσ j)) = some an ∧
+        (ihrList exQ an).eraseDups.length = (ihrList exQ an).length) :
+    ∃ ar' arQ an,
+      finalizePruned tbE.jetTy false exPlan true exCandL exRun = .ok ar' [(0, .inl .unit)] ∧
+      infer tbE.jetTy exQ true = .ok arQ ∧
+      tgtOf arQ 0 = tgtOf ar' 0 ∧
+      decodeRedeem tbE (padToByte (encProgram tbE.jc exN))
+          (padToByte ((wIdx exQ.toList 0).filterMap fun j => witBits [(0, .inl .unit)] (exσ j)).flatten) =
+        .ok ⟨exQ, arQ,
+          (wIdx exQ.toList 0).filterMap (fun j => (witBits [(0, .inl .unit)] (exσ j)).map fun b => (j, b)), an⟩ := by
+  have hs : runSides tbE.jetTy exPlan true exCandL exRun = some [(6, false)] := by decide +kernel
+  obtain ⟨ar, r, tr, hu, hr, hsides⟩ := runSides_spec hs
+  have hc : carries (finalizePruned tbE.jetTy false exPlan true exCandL exRun) [(0, .inl .unit)] = true := by
+    decide +kernel
+  obtain ⟨ar', h⟩ := carries_ok hc
+  have hconv : convert tbE.nameOf exN.toArray = .ok exQ := by
+    have : bitsNat zeros256 = 0 := by unfold bitsNat zeros256; rw [bitsNat_zeros]
+    simp [convert, convertGo, convNode, exN, exQ, needVisible, hiddenAt, this]
+    rfl
+  have hNok : NodesOk 0 exN := by
+    refine ⟨trivial, trivial, ⟨by decide, by decide⟩, by simp [WNode.Ok], ?_, ⟨by decide, by decide⟩,
+      ⟨by decide, by decide⟩, trivial⟩
+    show zeros256.length = 256
+    rw [zeros256, List.length_replicate]
+  have hR : Renumbers exσ exσ' exQ (Prog.prunePlan tr.sides exRun.ids (fun _ => 0) exPlan)
+      (cutOf exPlan (sidesOf exRun.ids tr.sides)).keep := by
+    rw [hsides]
+    exact renumbersB_sound (by decide +kernel)
+  have hfuel : infer tbE.jetTy exQ true ≠ .fuel := by
+    have : (match infer tbE.jetTy exQ true with | .fuel => false | _ => true) = true := by decide +kernel
+    intro e; rw [e] at this; cases this
+  obtain ⟨arQ, an, h1, h2, _, h4⟩ :=
+    finalize_pruned_serialisation_decodes tbE JetsE.ofName_nameOf exPlan exCandL exRun (by decide) ar r tr ar'
+      [(0, .inl .unit)] hu hr h exN exQ exσ exσ' (fun _ => 0) (by intro e; cases e) (by decide) hNok (by decide) hconv
+      (by intro nd hnd a e; subst e; simp [exQ] at hnd) hR hfuel han
+  exact ⟨ar', arQ, an, h, h1, (h2 0 .witness rfl rfl).2, h4⟩
 
 end Props.C12
